@@ -322,15 +322,20 @@ func NewOther() *int { n := 1; return &n }
 func NewCfg(d *Dep, o *int) Cfg { return Cfg{N: *o} }
 var _ = kessoku.Inject[Cfg]("InitCfg", kessoku.Async(kessoku.Provide(NewDep)), kessoku.Async(kessoku.Provide(NewOther)), kessoku.Provide(NewCfg))
 ''', r"cannot use nil as Cfg value in return statement"),
-    "KF-C04-3": ('''type Eg struct{ N int }
+}
+
+# reproducers of repaired defects (fixed: entries of known_findings.json): they must compile now, and a regression is a violation
+REPAIRED = {
+    # the errgroup local next to a variable named eg (type Eg); a second async injector in one file (both repaired)
+    "eg_type": '''type Eg struct{ N int }
 type Dep struct{ N int }
 type Out struct{ N int }
 func NewEg() *Eg { return &Eg{} }
 func NewDep() *Dep { return &Dep{} }
 func NewOut(e *Eg, d *Dep) *Out { return &Out{} }
 var _ = kessoku.Inject[*Out]("InitOut", kessoku.Async(kessoku.Provide(NewEg)), kessoku.Async(kessoku.Provide(NewDep)), kessoku.Provide(NewOut))
-''', r"(no new variables|eg\.Go undefined|eg\.Wait undefined|cannot use .*errgroup|declared and not used|assignment mismatch)"),
-    "KF-C04-7": ('''type A struct{ N int }
+''',
+    "second_async_injector": '''type A struct{ N int }
 type B struct{ N int }
 type C struct{ N int }
 type D struct{ N int }
@@ -340,11 +345,7 @@ func NewC(a *A, b *B) *C { return &C{} }
 func NewD(a *A, b *B) *D { return &D{} }
 var _ = kessoku.Inject[*C]("InitC", kessoku.Async(kessoku.Provide(NewA)), kessoku.Async(kessoku.Provide(NewB)), kessoku.Provide(NewC))
 var _ = kessoku.Inject[*D]("InitD", kessoku.Async(kessoku.Provide(NewA)), kessoku.Async(kessoku.Provide(NewB)), kessoku.Provide(NewD))
-''', r"declared and not used: ctx"),
-}
-
-# reproducers of repaired defects (fixed: entries of known_findings.json): they must compile now, and a regression is a violation
-REPAIRED = {
+''',
     "generic_instance": 'type Box[T any] struct{ V T }\ntype Out struct{ N int }\nfunc NewOut(b Box[int]) *Out { return &Out{N: b.V} }\nvar _ = kessoku.Inject[*Out]("InitOut", kessoku.Provide(NewOut))\n',
     "variadic_func": 'type Out struct{ N int }\nfunc NewOut(f func(...int) string) *Out { return &Out{N: len(f(1, 2))} }\nvar _ = kessoku.Inject[*Out]("InitOut", kessoku.Provide(NewOut))\n',
     "embedded_field": '''type Out struct{ N int }
@@ -444,6 +445,14 @@ CTX_ALIAS = {
 }
 
 
+# the remaining hard-coded locals: the loop variable ch of a multi-channel wait hides a package named ch that the
+# zero value of the requested type mentions (known finding KF-C04-3)
+CH_PACKAGE = {
+    "ch/c.go": 'package ch\n\ntype Client struct{ S string }\n',
+    "k.go": 'package main\n\nimport (\n\t"context"\n\n\t"github.com/mazrean/kessoku"\n\t"vscratch/known_KF_C04_3/ch"\n)\n\ntype A struct{}\ntype B struct{}\ntype C struct{}\n\nfunc NewA() *A { return &A{} }\nfunc NewB() *B { return &B{} }\nfunc NewC() *C { return &C{} }\nfunc NewClient(a *A, b *B, c *C) (*ch.Client, error) { return &ch.Client{S: "c"}, nil }\n\nvar _ = kessoku.Inject[*ch.Client]("InitClient",\n\tkessoku.Async(kessoku.Provide(NewA)),\n\tkessoku.Async(kessoku.Provide(NewB)),\n\tkessoku.Async(kessoku.Provide(NewC)),\n\tkessoku.Provide(NewClient),\n)\n\nfunc main() { _, _ = InitClient(context.Background()) }\n',
+}
+
+
 def write_pkg(mod, name, files):
     d = os.path.join(mod, name)
     os.makedirs(d, exist_ok=True)
@@ -520,6 +529,7 @@ def _stage(seed, tier, key="N-x"):
     pkgs.append(("ctx_alias", CTX_ALIAS, ["k.go"], None, dict(kind="an alias of context.Context among the requirements", run=True, expect_params={"k_band.go": {"InitApp": ["Ctx"]}})))
     pkgs.append(("xset", XSET, ["k.go"], "KF-C10-1", dict(kind="known finding reproducer (Set of another package)", signature="no vet signature: the file compiles",
                                                        expect_params={"k_band.go": {"InitB": []}}, known_params={"k_band.go": {"InitB": ["*prov.A"]}})))
+    pkgs.append(("known_KF_C04_3", CH_PACKAGE, ["k.go"], "KF-C04-3", dict(kind="known finding reproducer", signature=r"ch\.Client is not a type")))
     for kid, (body, sig) in KNOWN.items():
         pkgs.append(("known_" + kid.replace("-", "_"), {"k.go": wrap(body)}, ["k.go"], kid, dict(kind="known finding reproducer", signature=sig)))
     def one(p):
